@@ -95,7 +95,7 @@ func introFields(c *core.Ctx) (map[string]map[string]bool, token.Pos) {
 					// X = NewObject(ObjectConfig{Name: "__T", Fields: Fields{…}})
 					if len(y.Lhs) == 1 && len(y.Rhs) == 1 {
 						if call, ok := y.Rhs[0].(*ast.CallExpr); ok {
-							if fo := core.CalleeObj(info, call); fo != nil && fo.Name() == "NewObject" && len(call.Args) == 1 {
+							if fo := core.CalleeObj(info, call); fo != nil && core.N(fo) == "NewObject" && len(call.Args) == 1 {
 								if cl, ok := call.Args[0].(*ast.CompositeLit); ok {
 									name := ""
 									var fields *ast.CompositeLit
@@ -149,7 +149,7 @@ func bindsDefault(n *types.Named, name string) bool {
 	}
 	for i := 0; i < st.NumFields(); i++ {
 		f := st.Field(i)
-		if strings.EqualFold(f.Name(), name) {
+		if strings.EqualFold(core.N(f), name) {
 			return true
 		}
 		tag := reflect.StructTag(st.Tag(i))
@@ -361,7 +361,7 @@ func c10Rebuild(c *core.Ctx, r *core.Reporter) {
 		core.Instrs(fn, func(in ssa.Instruction) {
 			switch x := in.(type) {
 			case *ssa.Store:
-				if f := core.FieldOf(x.Addr); f != nil && f.Name() == spec.field {
+				if f := core.FieldOf(x.Addr); f != nil && core.N(f) == spec.field {
 					if _, ok := x.Val.(*ssa.MakeMap); ok {
 						freshStore = x
 					}
